@@ -244,8 +244,11 @@ Section Narrow.
             | TTuple id1, TTuple id2 =>
               match lookup_tuple P0 id1, lookup_tuple P0 id2 with
               | Some i1, Some i2 =>
+                (* since fix f9e893e (F26): `|| zip(fields).any(|((n1,_),(n2,_))| n1 != n2)` *)
                 if negb (opt_eqb (tname i1) (tname i2))
                    || negb (Nat.eqb (length (tfields i1)) (length (tfields i2)))
+                   || existsb (fun ab => negb (opt_eqb (fst (fst ab)) (fst (snd ab))))
+                              (combine (tfields i1) (tfields i2))
                 then Some (P0, [a])
                 else
                   let loop :=
